@@ -109,7 +109,26 @@ func c17Judge(c *mon.Ctx, aText, bText string, m V1Set) {
 			c.Feature("b_is_patch_result")
 		}
 	}
-	d := ReadJ1(aText).Diff(mkB(), m.MD()...)
+	mkA := func() lib.JsonNode { return ReadJ1(aText) }
+	if c.R.Chance(0.1) {
+		// a as the in-memory result of a list, set or multiset Patch (an exact copy of a, made of the nodes Patch leaves behind)
+		other := ref.ToJSON(gen.Perturb(c.R, gen.PTiny, a))
+		mode := gen.Pick(c.R, [][]lib.Metadata{nil, {lib.SET}, {lib.MULTISET}, {lib.MULTISET}})
+		build := func() lib.JsonNode {
+			var P lib.JsonNode
+			var err error
+			if pan := mon.Safe(func() { P, err = ReadJ1(other).Patch(ReadJ1(other).Diff(ReadJ1(aText), mode...)) }); pan != "" || err != nil || P == nil {
+				return nil
+			}
+			return P
+		}
+		if P := build(); P != nil && ref.Eq(Plain1(P), a, ref.List) {
+			mkA = build
+			c.Input("a_built_by", "lib Patch (not re-parsed)")
+			c.Feature("a_is_patch_result")
+		}
+	}
+	d := mkA().Diff(mkB(), m.MD()...)
 	text := d.Render()
 	extra := map[string]any{"diff": text}
 	eq := ReadJ1(aText).Equals(mkB(), m.MD()...)
@@ -186,7 +205,7 @@ func c17Judge(c *mon.Ctx, aText, bText string, m V1Set) {
 	}
 	// the diff applied to the very node it was computed from
 	if len(d) > 0 {
-		A := ReadJ1(aText)
+		A := mkA()
 		var P3 lib.JsonNode
 		var dd lib.Diff
 		if pan := mon.Safe(func() { dd = A.Diff(mkB(), m.MD()...); P3, err = A.Patch(dd) }); pan != "" {
@@ -222,7 +241,7 @@ func init() {
 		Rule: "v1 (package lib) cases are (a, b, metadata) over {none, SET, MULTISET, SET+Setkeys(id), MERGE (null-free), SET+MERGE, MULTISET+MERGE, SetPrecision(0.1), MULTISET+Setkeys(id)}: random structured pairs (plus set / multiset members that are 1-140 KB strings differing in one middle byte, multiplicities up to 257) with arrays growing, shrinking and changing in place, equal-under-reading pairs, keyed member pairs, " +
 			"every array pair over {1,2,3} up to length 4 at three positions; verdict: diff empty <=> lib Equals <=> independent oracle; Patch of the in-memory diff (on a fresh parse of a and on the very operand the diff was computed from) and of the rendered+re-read diff gives b (lib Equals and reference canon); plus the -v2=false binary pipeline; " +
 			"non-trivial = non-empty diff; distinct = distinct (a, b, metadata)",
-		Floors: map[string]int{"round_trips_ok": 50000, "diff_empty": 5000, "hunks>=2": 10000, "root_array_grows": 3000, "root_array_shrinks": 3000, "root_array_same_length": 3000, "cli_v1_pipelines": 200, "b_is_patch_result": 3000, "applied_to_the_operand_itself": 5000, "multiset_with_setkeys": 3000, "uncommon_metadata_pairs": 3000, "keyless_members_next_to_keyed": 3000, "bulky_member_cases": 300},
+		Floors: map[string]int{"round_trips_ok": 50000, "diff_empty": 5000, "hunks>=2": 10000, "root_array_grows": 3000, "root_array_shrinks": 3000, "root_array_same_length": 3000, "cli_v1_pipelines": 200, "b_is_patch_result": 3000, "applied_to_the_operand_itself": 5000, "multiset_with_setkeys": 3000, "uncommon_metadata_pairs": 3000, "keyless_members_next_to_keyed": 3000, "a_is_patch_result": 2000, "copies_made_by_a_multiset_patch": 1000, "bulky_member_cases": 300},
 		Assumptions: []string{
 			"v1 needs SET next to Setkeys for keyed sets (dispatch looks at SET / MULTISET only)",
 			"MERGE inputs are null-free; Setkeys inputs satisfy the key precondition with scalar key values",
@@ -269,6 +288,76 @@ func init() {
 			},
 		})
 	}
+	p.Strata = append(p.Strata, mon.Stratum{
+		Name: "copies-made-by-a-multiset-patch",
+		N:    qt(1500, 100000),
+		Run: func(c *mon.Ctx, i int) {
+			// v1 counterpart of C01's stratum of the same name (finding F34): a is what a MULTISET Patch
+			// returned after raising the multiplicity of a container member, b changes one copy inside
+			r := c.R
+			member := gen.Pick(r, []any{map[string]any{"k": 1.0, "l": []any{1.0}}, []any{1.0, map[string]any{"k": 1.0}}, map[string]any{"k": map[string]any{"n": 1.0}}})
+			x := []any{ref.Clone(member), "z"}
+			n := r.Range(2, 4)
+			var want []any
+			for k := 0; k < n; k++ {
+				want = append(want, ref.Clone(member))
+			}
+			want = append(want, "z")
+			w := i % 2
+			xText, wText := ref.ToJSON(gen.Wrap(x, w)), ref.ToJSON(gen.Wrap(want, w))
+			var A lib.JsonNode
+			var err error
+			if pan := mon.Safe(func() { A, err = ReadJ1(xText).Patch(ReadJ1(xText).Diff(ReadJ1(wText), lib.MULTISET)) }); pan != "" || err != nil || A == nil {
+				c.Skip("the building patch failed")
+				return
+			}
+			aText := A.Json()
+			b := ref.MustJSON(aText)
+			which, seen := r.Intn(n), 0
+			var edit func(v any) any
+			edit = func(v any) any {
+				switch t := v.(type) {
+				case []any:
+					for j := range t {
+						if ref.Eq(t[j], member, ref.List) {
+							if seen == which {
+								switch m := t[j].(type) {
+								case map[string]any:
+									m["k"] = 2.0
+								case []any:
+									t[j] = append(m, "new")
+								}
+							}
+							seen++
+						} else {
+							t[j] = edit(t[j])
+						}
+					}
+				case map[string]any:
+					for _, k := range ref.SortedKeys(t) {
+						t[k] = edit(t[k])
+					}
+				}
+				return v
+			}
+			b = edit(b)
+			bText := ref.ToJSON(b)
+			c.Input("a", aText)
+			c.Input("b", bText)
+			c.Input("a_built_by", "lib MULTISET Patch that raised a multiplicity")
+			c.Feature("copies_made_by_a_multiset_patch")
+			c.Nontrivial(joinKey("copies", aText, bText))
+			var P lib.JsonNode
+			var d lib.Diff
+			if pan := mon.Safe(func() { d = A.Diff(ReadJ1(bText)); P, err = A.Patch(d) }); pan != "" || err != nil || P == nil {
+				c.Violation("(v1) a.Patch(a.Diff(b)) failed on a document returned by a MULTISET Patch: "+fmt.Sprint(err, pan), nil)
+				return
+			}
+			if got := Plain1(P); !ref.Eq(got, b, ref.List) {
+				c.Violation("(v1) a.Patch(a.Diff(b)) on a document returned by a MULTISET Patch is not b: the copies of a member share storage", map[string]any{"diff": d.Render(), "patched": ref.ToJSON(got)})
+			}
+		},
+	})
 	p.Strata = append(p.Strata, mon.Stratum{
 		Name: "setkeys-with-keyless-members",
 		N:    qt(4000, 200000),
